@@ -115,6 +115,42 @@ def run_child(fn: Callable[[], Any], *, cpu_s: float = 10.0, mem_mb: int = 1024,
     return ChildResult(kind, None, cpu, wall, ru.ru_maxrss, err=str(val))
 
 
+class Hang(Exception):
+    """the tool used up its CPU allowance (or the wall-clock fallback) inside one call"""
+
+
+def _alarm(signum, frame):
+    raise Hang()
+
+
+_watching = False
+
+
+def with_watchdog(fn, seconds: float = 2.0):
+    """run fn(); raise Hang when it has used `seconds` of CPU time (ITIMER_PROF: the verdict does not depend on how loaded the
+    machine is) or, for a hang that burns no CPU, after a generous wall-clock time.  Re-entrant: an inner call runs under
+    the outer allowance."""
+    global _watching
+    if _watching:
+        return fn()
+    old_p = signal.signal(signal.SIGPROF, _alarm)
+    old_a = signal.signal(signal.SIGALRM, _alarm)
+    _watching = True
+    signal.setitimer(signal.ITIMER_PROF, seconds)
+    signal.setitimer(signal.ITIMER_REAL, max(120.0, 30.0 * seconds))
+    try:
+        return fn()
+    finally:
+        signal.setitimer(signal.ITIMER_PROF, 0)
+        signal.setitimer(signal.ITIMER_REAL, 0)
+        signal.signal(signal.SIGPROF, old_p)
+        signal.signal(signal.SIGALRM, old_a)
+        _watching = False
+
+
+CALL_CPU_S = 30.0         # allowance of one in-process ls / export call (generated images take milliseconds to seconds)
+
+
 @contextlib.contextmanager
 def captured():
     """Capture stdout/stderr of in-process tool calls."""
@@ -126,7 +162,7 @@ def captured():
 def ls(image_or_path, path: str = "") -> str:
     from smpl_extract.actions import ls_action
     with captured() as (out, _):
-        ls_action(image_or_path, path)
+        with_watchdog(lambda: ls_action(image_or_path, path), CALL_CPU_S)      # a hang is an observation (Hang), not a stuck check
     return out.getvalue()
 
 
@@ -134,7 +170,7 @@ def export(image_or_path, dest: str) -> List[str]:
     """Run export; returns the `Exported ...` lines (relative paths incl. .wav)."""
     from smpl_extract.actions import export_samples_to_wav
     with captured() as (out, _):
-        export_samples_to_wav(image_or_path, dest)
+        with_watchdog(lambda: export_samples_to_wav(image_or_path, dest), CALL_CPU_S)
     return [l[len("Exported "):] for l in out.getvalue().splitlines() if l.startswith("Exported ")]
 
 
